@@ -142,6 +142,19 @@ type msState struct {
 	epilogue  []*msReqLog
 	epiPanic  string
 	filesLeft []string
+	snaps     []msSnap // muxer state after warm-up and after every write of the writer
+}
+
+type msSnap struct {
+	first int // media sequence number of the first listed segment
+	open  int // media sequence number (id) of the open segment
+}
+
+func (st *msState) snap() {
+	ls := st.leadingStream()
+	st.mu.Lock()
+	st.snaps = append(st.snaps, msSnap{first: ls.segmentDeleteCount, open: int(ls.nextSegmentID)})
+	st.mu.Unlock()
 }
 
 func (st *msState) leadingStream() *muxerStream { return st.mi.m.leadingStream }
@@ -289,12 +302,14 @@ func msSetup(sc msScen, scratch string) func(s *vsched.Sched) any {
 				panic(fmt.Sprintf("warm-up write failed: %v", err))
 			}
 		}
+		st.snap()
 		vsched.GoNamed("writer", func() {
 			for i := 0; i < sc.Writes; i++ {
 				if err := st.feeder.feed(sc.Params != 0 && i == sc.Params-1); err != nil {
 					st.writeErr = err
 					break
 				}
+				st.snap()
 				st.mu.Lock()
 				st.progress++
 				st.mu.Unlock()
